@@ -159,6 +159,21 @@ theorem loaded_value_is_bit_prefix (d : List Nat) (k : Nat) (bs : List Nat)
     exact dec6_lt hc
   rw [decodeSextets_bits _ hlt, hlen d' hd']
 
+/-- **byte strings ↔ canonical sextet strings is a bijection**: the encoder writes the alphabet characters of
+    `sextets bs` (then pads); `sextets bs` is canonical (no lone final sextet, unused low bits zero);
+    `decodeSextets` inverts `sextets`, and `sextets` inverts `decodeSextets` on every canonical string. So the
+    canonical texts are exactly the dumps, and each is the dump of exactly what it loads to. -/
+theorem sextet_codec_bijection :
+    (∀ bs : List Nat, b2a bs = (sextets bs).map enc6 ++ List.replicate ((3 - bs.length % 3) % 3) PAD) ∧
+    (∀ bs : List Nat, (∀ b ∈ bs, b < 256) → CanonS (sextets bs) ∧ decodeSextets (sextets bs) = bs) ∧
+    (∀ ss : List Nat, (∀ s ∈ ss, s < 64) → CanonS ss → sextets (decodeSextets ss) = ss) :=
+  ⟨b2a_eq_sextets, fun bs h => ⟨canonS_sextets bs, decodeSextets_sextets bs h⟩, sextets_decodeSextets⟩
+
+/-- the tolerated non-canonical texts are really non-canonical: `"TWF="` (non-zero unused bits) loads to `Ma`, whose
+    dump is `"TWE="` -/
+example : CanonS [19, 22, 5] = False ∧ decodeSextets [19, 22, 5] = [77, 97] ∧ sextets [77, 97] = [19, 22, 4] := by
+  refine ⟨by simp [CanonS], by decide, by decide⟩
+
 /-- the loader is total and raises nothing but the two LoadError classes (C04, weak: the
     model is a total function; what matters is that the correspondence finds the real
     loader inside this model on hostile input) -/
